@@ -147,9 +147,13 @@ impl<'tcx> Dumper<'tcx> {
                 // Variants/fields: for every enum, and for local structs.
                 if def.is_enum() || def.did().is_local() {
                     let mut vs = Vec::new();
-                    for v in def.variants().iter() {
+                    for (vi, v) in def.variants().iter_enumerated() {
                         let mut vo = J::obj();
                         vo.set("name", J::str(v.name.as_str()));
+                        if def.is_enum() {
+                            let d = def.discriminant_for_variant(self.tcx, vi);
+                            vo.set("discr", J::BigUint(d.val));
+                        }
                         let mut fs = Vec::new();
                         // Only expand field types for local ADTs and for the
                         // small std enums whose payloads we interpret.
@@ -387,6 +391,17 @@ impl<'tcx> Dumper<'tcx> {
         }
         o.set("gargs", J::Arr(ga));
         o.set("gargs_ty", J::Arr(gat));
+        let mut gp = Vec::new();
+        let mut gall = Vec::new();
+        for (ident, actual) in ty::GenericArgs::identity_for_item(tcx, did).iter().zip(args.iter()) {
+            gp.push(J::str(&format!("{}", ident)));
+            match actual.as_type() {
+                Some(t) => gall.push(J::Int(self.ty(t) as i128)),
+                None => gall.push(J::Null),
+            }
+        }
+        o.set("gparams", J::Arr(gp));
+        o.set("gargs_all", J::Arr(gall));
         if did.is_local() {
             o.set("key", J::str(&self.body_key(did)));
         }
@@ -806,6 +821,8 @@ impl<'tcx> Dumper<'tcx> {
             let body = tcx.optimized_mir(did);
             let mut bo = self.body(body, did);
             bo.set("path", J::str(&self.pretty(did)));
+            let gens: Vec<J> = ty::GenericArgs::identity_for_item(tcx, did).iter().map(|a| J::str(&format!("{}", a))).collect();
+            bo.set("generics", J::Arr(gens));
             bo.set("def_kind", J::str(&format!("{:?}", dk)));
             bo.set("name", J::str(&tcx.opt_item_name(did).map(|s| s.to_string()).unwrap_or_default()));
             let reachable = matches!(dk, DefKind::Fn | DefKind::AssocFn) && ev.is_reachable(ldid);
